@@ -7,8 +7,10 @@ package otter
 
 import (
 	"bufio"
+	"bytes"
 	"context"
 	"encoding/json"
+	"math"
 	"os"
 	"sync"
 	"sync/atomic"
@@ -16,6 +18,7 @@ import (
 	"time"
 
 	"github.com/maypok86/otter/v2/internal/verifkit"
+	"github.com/maypok86/otter/v2/stats"
 )
 
 type stallClock struct {
@@ -327,10 +330,12 @@ func runSetIfAbsentRace(sc sweepScenario) sweepResult {
 	clk.now.Store(int64(5) << 30)
 	calc := &parkCalc{ttl: time.Duration(sc.TTL), parked: make(chan struct{}), resume: make(chan struct{})}
 	var mu sync.Mutex
+	ctrSia := stats.NewCounter()
 	o := &Options[int, int]{
 		Clock:            clk,
 		ExpiryCalculator: calc,
 		MaximumSize:      sc.Max + 4,
+		StatsRecorder:    ctrSia,
 		OnAtomicDeletion: func(e DeletionEvent[int, int]) {
 			if e.Key == 1 && e.Value == 11 {
 				mu.Lock()
@@ -446,6 +451,8 @@ func runSetIfAbsentRace(sc sweepScenario) sweepResult {
 		}
 		<-rdone
 	}
+	snap := ctrSia.Snapshot()
+	res.Hits, res.Misses = int(snap.Hits), int(snap.Misses)
 	time.Sleep(2 * time.Millisecond)
 	c.CleanUp()
 	time.Sleep(2 * time.Millisecond)
@@ -812,6 +819,68 @@ func runSizeEvictRace(sc sweepScenario) sweepResult {
 	return res
 }
 
+// stepClock moves by one nanosecond at every reading (every real clock moves between two readings)
+type stepClock struct {
+	now   atomic.Int64
+	never chan time.Time
+}
+
+func (c *stepClock) NowNano() int64                      { return c.now.Add(1) }
+func (c *stepClock) Tick(time.Duration) <-chan time.Time { return c.never }
+
+// runPersistStep (C19): entries that never expire / are never due for refresh are saved and loaded into a cache whose clock moves
+// between any two readings; they must come back as "never", not wrapped into the past.
+func runPersistStep(sc sweepScenario) sweepResult {
+	res := sweepResult{T: "sweep", Sc: sc, TickNs: 1 << 30}
+	mk := func(clk Clock) *Cache[int, int] {
+		o := &Options[int, int]{
+			Clock:             clk,
+			Executor:          func(fn func()) { fn() },
+			ExpiryCalculator:  ExpiryWriting[int, int](time.Duration(math.MaxInt64)),
+			RefreshCalculator: RefreshWriting[int, int](time.Duration(math.MaxInt64)),
+		}
+		if sc.Sized == 1 {
+			o.MaximumSize = 100
+		}
+		return Must(o)
+	}
+	src := &stallClock{never: make(chan time.Time), stalled: make(chan struct{}), resume: make(chan struct{})}
+	src.now.Store(int64(5) << 30)
+	a := mk(src)
+	defer a.StopAllGoroutines()
+	for k := 0; k < 8; k++ {
+		a.Set(k, 100+k)
+	}
+	a.CleanUp()
+	var buf bytes.Buffer
+	if err := SaveCacheTo(a, &buf); err != nil {
+		res.Hang = 1
+		return res
+	}
+	tc := &stepClock{never: make(chan time.Time)}
+	tc.now.Store(int64(5)<<30 + sc.Jump)
+	b := mk(tc)
+	defer b.StopAllGoroutines()
+	if err := LoadCacheFrom(b, &buf); err != nil {
+		res.Hang = 1
+		return res
+	}
+	for k := 0; k < 8; k++ {
+		e, ok := b.GetEntryQuietly(k)
+		if !ok {
+			continue
+		}
+		res.Loaded++
+		if e.RefreshableAtNano != math.MaxInt64 {
+			res.BadRef++
+		}
+		if e.ExpiresAtNano != math.MaxInt64 {
+			res.BadExp++
+		}
+	}
+	return res
+}
+
 type sweepResult struct {
 	T       string        `json:"t"`
 	Sc      sweepScenario `json:"sc"`
@@ -831,6 +900,11 @@ type sweepResult struct {
 	MidAlive   int `json:"midalive"`   // 1 = its deadline (as reported then) lay after the clock value of the race
 	Overlap     int `json:"overlap"`     // ld.x: 1 = a second loader for the key was entered while the first was still running
 	LdRuns      int `json:"ldruns"`      // ld.x: loader invocations
+	Hits        int `json:"hits"`        // sia.x: hits / misses recorded by the race (the reader's lookup is a hit)
+	Misses      int `json:"misses"`
+	BadRef      int `json:"badref"`      // persist.x: loaded entries whose "never" refresh deadline came back as something else
+	BadExp      int `json:"badexp"`      // persist.x: ... expiration deadline
+	Loaded      int `json:"loaded"`      // persist.x: entries found in the target
 	MassN       int `json:"massn"`       // mass.x: entries that came due in one sweep
 	MassExpired int `json:"massexpired"` // mass.x: distinct keys for which exactly one Expiration event was delivered
 	AtomicCause string `json:"atomiccause"` // sia.x: cause with which the replaced value (key 1, value 11) reached OnAtomicDeletion
@@ -939,6 +1013,10 @@ func TestVerifSweep(t *testing.T) {
 	defer w.Flush()
 	enc := json.NewEncoder(w)
 	for _, sc := range scs {
+		if sc.Op == "persist.step" {
+			_ = enc.Encode(runPersistStep(sc))
+			continue
+		}
 		if sc.Op == "gate.size" {
 			_ = enc.Encode(runSizeEvictRace(sc))
 			continue
